@@ -50,7 +50,7 @@ NULL_0418 = "000000B0000000000000000000007FFFFF7000000000"  # the controller's '
 
 # codes whose request carries a context, and where (independent of the code's own tables)
 CTX_POS = {"0005": [(0, 4)], "000C": [(0, 4)], "0404": [(0, 2), (10, 12)], "0418": [(4, 6)], "3220": [(4, 6)]}
-ZONE_IDX_CODES = {"0004", "000A", "12B0", "2309", "2349", "30C9", "3150", "0008", "0009", "1100", "22C9"}
+ZONE_IDX_CODES = {"0004", "000A", "12B0", "2309", "2349", "30C9", "3150", "0008", "0009", "22C9"}  # (1100 carries a context only for the FC domain)
 
 
 def setup(tier):
